@@ -62,6 +62,20 @@ theorem perm_roundtrip_partial (s : St) (hI : Sekai.Props.C07.Inv s)
     Sekai.PermGenesis.Equiv (init (exportGen actorIds roleIds s)) s :=
   Sekai.PermGenesis.roundtrip_partial s hI actorIds roleIds hna hnr hca hcr hbl
 
+/-- **C07 across a genesis import (partial)**: on a state without role blacklists every account's answer to "does it
+hold permission p" is the same before the export and after the import. (With role blacklists it is not:
+`perm_roundtrip_counterexample`; the C07 harness re-imports the gov state in place and tolerates exactly that case.) -/
+theorem import_keeps_every_permission_answer_partial (s : St) (hI : Sekai.Props.C07.Inv s)
+    (actorIds roleIds : List Nat) (hna : actorIds.Nodup) (hnr : roleIds.Nodup)
+    (hca : ∀ a, (s.actors a).isSome → a ∈ actorIds) (hcr : ∀ r, (s.roleReg r).isSome → r ∈ roleIds)
+    (hbl : ∀ r ps, s.roleReg r = some ps → ps.bl = []) (a p : Nat) :
+    checkAllowed (init (exportGen actorIds roleIds s)) a p = checkAllowed s a p := by
+  have E := perm_roundtrip_partial s hI actorIds roleIds hna hnr hca hcr hbl
+  have hA : (init (exportGen actorIds roleIds s)).actors = s.actors := funext E.actors
+  have hR : (init (exportGen actorIds roleIds s)).roleReg = s.roleReg := funext E.roles
+  unfold checkAllowed rolePermsOf
+  rw [hA, hR]
+
 def expectedModules : List (String × List String × List String × List String) := [
   ("basket", ["KeyLastBasketId=[]byte(\"last_basket_id\")", "PrefixBasketBurnByTime=[]byte(\"basket_burn_by_time\")", "PrefixBasketByDenomKey=[]byte(\"basket_by_denom\")", "PrefixBasketKey=[]byte(\"basket_by_id\")", "PrefixBasketMintByTime=[]byte(\"basket_mint_by_time\")", "PrefixBasketSwapByTime=[]byte(\"basket_swap_by_time\")"], ["GetAllBaskets", "GetAllBurnAmounts", "GetAllMintAmounts", "GetAllSwapAmounts", "GetLastBasketId"], ["SetBasket", "SetBurnAmount", "SetLastBasketId", "SetMintAmount", "SetSwapAmount"]),
   ("collectives", ["PrefixCollectiveContributerKey=[]byte(\"collective_contributer\")", "PrefixCollectiveKey=[]byte(\"collective_by_name\")"], [], []),
